@@ -166,10 +166,13 @@ macro_rules! explorer {
                 fn slice_ok(&self, src: &'s $Src) -> bool {
                     let (s, e) = self.span();
                     let b: &[u8] = $bytes(src);
-                    match self {
+                    // an accessor that panics (e.g. on the empty span of a fresh or exhausted lexer) is a
+                    // disagreement with the source, not a crash of the explorer
+                    std::panic::catch_unwind(std::panic::AssertUnwindSafe(|| match self {
                         Node::A(l) => $bytes(l.slice()) == &b[s..e] && $bytes(l.remainder()) == &b[e..],
                         Node::B(l) => $bytes(l.slice()) == &b[s..e] && $bytes(l.remainder()) == &b[e..],
-                    }
+                    }))
+                    .unwrap_or(false)
                 }
                 /// drive to exhaustion (bounded), returning every step
                 fn drain(&mut self, bound: usize) -> Vec<Step> {
@@ -243,7 +246,7 @@ macro_rules! explorer {
                                 continue;
                             }
                             if !node.slice_ok(src) {
-                                complain(rep, "ACCESSORS", &hist, format!("slice()/remainder() differ from source[{s}..{e}] / source[{e}..]"));
+                                complain(rep, "ACCESSORS", &hist, format!("slice()/remainder() differ from source[{s}..{e}] / source[{e}..] (or panic)"));
                             }
                             if d == depth {
                                 continue;
